@@ -291,7 +291,18 @@ func (m *Monitors) c14(c *Chain, o Op, res string) []string {
 				}
 			}
 			need := (2*len(vault) + 2) / 3
-			if yes < need {
+			yesAll := 0
+			for _, x := range p.votes {
+				if x[1] == 2 {
+					yesAll++
+				}
+			}
+			needStart := (2*len(prev.vault) + 2) / 3
+			if yesAll < needStart {
+				// not even the recorded yes votes reach two thirds of the keys registered when the block started: no reading of the
+				// rule allows this approval (this is NOT the known finding D10, which is about whose votes are counted)
+				v = append(v, fmt.Sprintf("C14 proposal %d approved with only %d yes votes recorded, %d needed for the %d keys registered (votes %v)", id, yesAll, needStart, len(prev.vault), p.votes))
+			} else if yes < need {
 				v = append(v, fmt.Sprintf("C14 proposal %d approved with %d yes votes of currently registered keys, %d needed (vault %v, votes %v)", id, yes, need, vault, p.votes))
 			}
 			if c.Time-p.start > 1800 {
